@@ -427,7 +427,7 @@ func spin(variant string, a, b time.Duration) string {
 		wname = "A"
 	}
 	pname := "pass"
-	if pulse.Status != check.StatusPass {
+	if pulse.Status() != check.StatusPass {
 		pname = "fail"
 	}
 	// let B come due
